@@ -8,6 +8,8 @@ Open Scope list_scope.
 Open Scope N_scope.
 
 
+Definition two64 : N := 18446744073709551616.
+
 (* ---------- option helpers ---------- *)
 Definition is_some {A} (o : option A) : bool := match o with Some _ => true | None => false end.
 Definition is_none {A} (o : option A) : bool := negb (is_some o).
